@@ -572,8 +572,8 @@ def gen_blocked_case(rng, cfgs, kind=None, directed=False):
     kind = kind or rng.choice(BKINDS)
     cfg = rng.choice(cfgs[kind])
     shapes, segs = layout(kind, cfg)
-    tgt = 'm' if directed else rng.choice(['p0', 'p1', 'm', 'm', 'm', 'r', 'r'])
-    check = rng.random() < 0.5 if tgt == 'p1' else rng.random() < 0.8
+    tgt = 'm' if directed else rng.choice(['p0', 'p1', 'p2', 'm', 'm', 'm', 'r', 'r'])
+    check = rng.random() < 0.5 if tgt in ('p1', 'p2') else rng.random() < 0.8
     chunks = []
     for i, (rows, cols) in enumerate(shapes):
         rc = sorted(rng.sample(range(1, rows), rng.randint(0, min(2, rows - 1)))) if rows > 1 else []
@@ -644,7 +644,8 @@ def blocked_line(case):
     shapes, segs = layout(case['kind'], case['cfg'])
     sh = ','.join(f'{r}x{c}' for r, c in shapes)
     sg = ','.join(f'{coll}:{spp}:' + '/'.join('%d.%d.%d.%d' % b for b in blocks) for coll, spp, blocks in segs)
-    return f"life B {case['target']} {int(case['check'])} {sh} {sg} | " + ' '.join(case['ops'])
+    tgt = 'p1' if case['target'] == 'p2' else case['target']
+    return f"life B {tgt} {int(case['check'])} {sh} {sg} | " + ' '.join(case['ops'])
 
 
 def _children_of(seg):
@@ -665,8 +666,8 @@ def run_blocked_case(case, scratch, brefs, final_readback=True):
     if os.path.exists(path):
         os.remove(path)
     pre = None
-    if tgt == 'p1':
-        pre = b'PREEXISTING' * 5000
+    if tgt in ('p1', 'p2'):
+        pre = b'PREEXISTING' * 5000 if tgt == 'p1' else b''
         with _real_open(path, 'wb') as f:
             f.write(pre)
         os.utime(path, (1000000000, 1000000000))
@@ -687,7 +688,7 @@ def run_blocked_case(case, scratch, brefs, final_readback=True):
             out, ecls, w = call(lambda: brefs.make_writer(kind, cfg, target, case['check']))
             if out != 'ok':
                 exc_classes[ecls] = 1
-                if not (tgt == 'p1' and case['check'] and ecls == 'SarpyIOError'):
+                if not (tgt in ('p1', 'p2') and case['check'] and ecls == 'SarpyIOError'):
                     fail('', f'construction raised {ecls} for target {tgt} check_existence={case["check"]}', -1)
                 else:
                     st = os.stat(path)
@@ -698,9 +699,9 @@ def run_blocked_case(case, scratch, brefs, final_readback=True):
                 if tracker.any_open():
                     fail('', 'construction failed but left a file handle open', -1)
                 return ['refused'], fails, {'exc': exc_classes, 'refused': True}
-            if tgt == 'p1' and case['check']:
-                fail('', 'an existing path was accepted although check_existence=True', -1)
-            trace.append('init:%d' % int(tgt == 'p1'))
+            if tgt in ('p1', 'p2') and case['check']:
+                fail('', f"an existing {'empty ' if tgt == 'p2' else ''}file was accepted (and truncated) although check_existence=True", -1)
+            trace.append('init:%d' % int(tgt in ('p1', 'p2')))
             # ---- the objects sarpy built, against the layout the harness computed from the configuration
             isegs = list(w._image_segment_data_segments)
             managers = list(w.nitf_writing_details.image_managers)
@@ -887,7 +888,7 @@ def oracle_blocked(case, ref, obs, final, other_open, path, fail, final_readback
                     fail('', f"step {step} {op}: write/flush on an open writer raised {o['exc']}", step)
         if tgt in ('m', 'r') and not o['fileOpen']:
             fail('', f"step {step} {op}: the caller's file object was closed by the writer", step)
-        if tgt in ('p0', 'p1') and closed_seen and o['fileOpen']:
+        if tgt in ('p0', 'p1', 'p2') and closed_seen and o['fileOpen']:
             fail('', f'step {step} {op}: the file the writer opened itself is still open after close', step)
         # ---- never claims fully written unless complete: every level, every step
         for k, s in enumerate(o['segs']):
@@ -1157,4 +1158,234 @@ def compare_dag(model_line, trace, names):
         mf2 = ''.join('1' if by_name[n] else '0' for n in names)
         if (mo, mf2, mtemp) != (to, tf, ttemp):
             out.append(f'step {k}: model {mo}:{mf2}:{mtemp} implementation {to}:{tf}:{ttemp}')
+    return out
+
+
+# ================================================================================================ translator fidelity (three-way)
+
+def kernel_requests():
+    """small-scope enumeration of the regenerated decision kernels: (request line, thunk evaluating the Python original)"""
+    import itertools
+    import types
+    import sarpy.io.general.data_segment as ds
+    import sarpy.io.general.nitf as nitf
+    out = []
+
+    def child(b):
+        return types.SimpleNamespace(check_fully_written=lambda warn=False, b=b: b)
+    for name, cls in (('block', ds.BlockAggregateSegment), ('band', ds.BandAggregateSegment)):
+        for mode_r in (0, 1):
+            for n in range(0, 5):
+                for bs in itertools.product([False, True], repeat=n):
+                    me = types.SimpleNamespace(mode='r' if mode_r else 'w', children=[child(b) for b in bs])
+                    out.append((f"lifegen {name} {mode_r} {bits(bs)}", (lambda cls=cls, me=me: bool(cls.check_fully_written(me)))))
+    for name, cls in (('array', ds.NumpyArraySegment), ('subset', ds.SubsetSegment)):
+        for mode_r in (0, 1):
+            for w in range(0, 5):
+                for e in range(0, 5):
+                    me = types.SimpleNamespace(mode='r' if mode_r else 'w', _pixels_written=w, _expected_pixels_written=e)
+                    out.append((f'lifegen {name} {mode_r} {w} {e}', (lambda cls=cls, me=me: bool(cls.check_fully_written(me)))))
+    for a, b, c, d in itertools.product([0, 1], repeat=4):
+        def hand(a=a, b=b, c=c, d=d):
+            # one iteration of the loop in NITFWriter.flush, run on stand-ins: was item_bytes assigned?
+            mgr = types.SimpleNamespace(item_written=bool(a), item_bytes=(b'old' if b else None))
+            entry = types.SimpleNamespace(check_fully_written=lambda warn=False: bool(d), get_raw_bytes=lambda warn=False: b'new')
+            det = types.SimpleNamespace(image_managers=[mgr], verify_all_offsets=lambda require=False: False,
+                                        write_all_populated_items=lambda f: None, write_header=lambda f, overwrite=False: None)
+            me = types.SimpleNamespace(_validate_closed=lambda: None, _data_segment=None, _in_memory=True, _closed=False,
+                                       _image_segment_data_segments=[entry], nitf_writing_details=det, _file_object=None)
+            nitf.NITFWriter.flush(me, force=bool(c))
+            return mgr.item_bytes == b'new'
+        out.append((f'lifegen hand {a} {b} {c} {d}', hand))
+    return out
+
+
+def kernel_threeway(ans_lines, requests):
+    """-> (number compared, disagreements implementation / regenerated Lean / reference)"""
+    dis = []
+    for (line, thunk), got in zip(requests, ans_lines):
+        try:
+            impl = '1' if thunk() else '0'
+        except Exception as e:      # noqa: the stand-ins are the harness's; report, do not alarm
+            impl = 'err ' + type(e).__name__
+        if got == 'bad-op' or ' | ' not in got:
+            dis.append({'msg': f'{line}: the driver answered {got[:60]}'})
+            continue
+        gen, spec = got.split(' | ')
+        if not (impl == gen == spec):
+            dis.append({'msg': f'{line}: implementation {impl}, regenerated Lean {gen}, reference definition {spec}'})
+    return len(requests), dis
+
+
+# ================================================================================================ machine A: hand-built aggregates
+
+def gen_aggregate_cases():
+    """Block / Band aggregates over 2-3 writable children, every subset of the children completed through the child itself"""
+    import itertools
+    out = []
+    for agg in ('block', 'band'):
+        for n in (2, 3):
+            for done in itertools.product([0, 1], repeat=n):
+                out.append({'machine': 'A', 'agg': agg, 'done': list(done), 'ops': []})
+    return out
+
+
+def aggregate_line(case):
+    return f"lifegen {case['agg']} 0 {bits(case['done'])}"
+
+
+def run_aggregate_case(case, scratch=None):
+    """-> (trace [claim], failures, info): the aggregate must not claim to be fully written unless every child is complete"""
+    from sarpy.io.general.data_segment import NumpyArraySegment, BandAggregateSegment, BlockAggregateSegment
+    n = len(case['done'])
+    kids = [NumpyArraySegment(numpy.zeros((2, 2), dtype='uint8'), mode='w') for _ in range(n)]
+    if case['agg'] == 'band':
+        agg = BandAggregateSegment(kids, 2)
+    else:
+        arr = [(slice(0, 2, 1), slice(2 * j, 2 * j + 2, 1)) for j in range(n)]
+        agg = BlockAggregateSegment(kids, arr, 'raw', 0, (2, 2 * n), 'uint8', (2, 2 * n))
+    for k, d in zip(kids, case['done']):
+        if d:
+            k.write(numpy.full((2, 2), 7, dtype='uint8'), start_indices=(0, 0))
+    out, ecls, claim = call(lambda: bool(agg.check_fully_written()))
+    child_claims = [bool(k.check_fully_written()) for k in kids]
+    fails = []
+    if out != 'ok':
+        fails.append({'key': '', 'msg': f"{case['agg']} aggregate: check_fully_written raised {ecls}", 'step': 0, 'case': case})
+    elif claim and not all(case['done']):
+        fails.append({'key': '', 'msg': f"{case['agg']} aggregate over {n} children reports fully written although children "
+                                        f"{[j for j, d in enumerate(case['done']) if not d]} were never written (children claim {child_claims})",
+                      'step': 0, 'case': case})
+    call(agg.close)
+    return ['1' if claim else '0'], fails, {'exc': {}, 'child_claims': child_claims}
+
+
+def compare_aggregate(model_line, trace):
+    if ' | ' not in model_line:
+        return [f'the driver answered {model_line[:60]}']
+    gen, spec = model_line.split(' | ')
+    if not (gen == spec == trace[0]):
+        return [f'aggregate claim: implementation {trace[0]}, regenerated Lean {gen}, reference definition {spec}']
+    return []
+
+
+
+# ================================================================================================ machine E: the existence check
+
+EPRE = {'a': 'nothing', 'e': 'an empty file', 'f': 'a non-empty file', 'd': 'a directory'}
+ECHECK = {'n': None, '0': False, '1': True}
+
+
+def gen_exist_cases(kinds):
+    """every path-taking writer family x what is at the path x check_existence (not given / False / True)"""
+    return [{'machine': 'E', 'kind': k, 'pre': p, 'check': c, 'ops': []} for k in kinds for p in 'aefd' for c in 'n01']
+
+
+def exist_line(case):
+    return f"life E {case['pre']} {case['check']}"
+
+
+def exist_gen_line(case):
+    fam = {'NITF': 'nitf', 'SICD': 'nitf', 'SIDD': 'nitf', 'CPHD': 'cphd', 'CRSD': 'cphd', 'SIO': 'sio'}[case['kind']]
+    chk = '0' if case['check'] == '0' else '1'
+    return f"lifegen refuses {fam} {chk} {int(case['pre'] != 'a')}"
+
+
+def _dir_state(path):
+    return sorted(os.listdir(path))
+
+
+def run_exist_case(case, scratch, refs):
+    """-> (trace, failures, info).  trace = [`refused:<kept>` | `failed:<kept>` | `opened<clobbered>:<kept>`]"""
+    import c19
+    kind, pre, check = case['kind'], case['pre'], ECHECK[case['check']]
+    shapes = [tuple(s) for s in c19.WSHAPES[kind][0]]
+    ref = refs.get(kind, shapes)
+    fails = []
+
+    def fail(msg):
+        fails.append({'key': '', 'msg': msg, 'step': 0, 'case': case})
+    path = os.path.join(scratch, 'target.bin')
+    content = None
+    if pre == 'e':
+        content = b''
+    elif pre == 'f':
+        content = b'PREEXISTING' * 500
+    if content is not None:
+        with _real_open(path, 'wb') as f:
+            f.write(content)
+        os.utime(path, (1000000000, 1000000000))
+    elif pre == 'd':
+        os.mkdir(path)
+        with _real_open(os.path.join(path, 'inside.txt'), 'wb') as f:
+            f.write(b'x')
+
+    def intact():
+        if pre == 'a':
+            return not os.path.lexists(path)
+        if pre == 'd':
+            return os.path.isdir(path) and _dir_state(path) == ['inside.txt']
+        if not os.path.isfile(path):
+            return False
+        with _real_open(path, 'rb') as f:
+            now = f.read()
+        return now == content and int(os.stat(path).st_mtime) == 1000000000
+    tracker = OpenTracker(scratch)
+    what = f"{kind} writer on a path holding {EPRE[pre]}, check_existence {'not given' if check is None else check}"
+    must_refuse = pre != 'a' and check is not False        # the property clause, stated directly
+    with tracker:
+        out, ecls, w = call(lambda: refs.make_writer(kind, shapes, path, check))
+        if out != 'ok':
+            res = 'refused' if ecls == 'SarpyIOError' else 'failed'
+            keep = intact()
+            if not keep:
+                fail(f'{what}: construction raised {ecls} but what was at the path is no longer byte-identical')
+            if tracker.any_open():
+                fail(f'{what}: construction raised {ecls} and left a file handle open')
+            if res == 'refused' and not must_refuse:
+                fail(f'{what}: refused (SarpyIOError) although ' + ('nothing exists there' if pre == 'a' else 'the caller disabled the check'))
+            if res == 'failed' and must_refuse:
+                fail(f'{what}: raised {ecls} instead of refusing with SarpyIOError')
+            if res == 'failed' and not (pre == 'd'):
+                fail(f'{what}: construction raised {ecls}')
+            trace = [f'{res}:{int(keep)}']
+        else:
+            keep = pre == 'a'
+            if must_refuse:
+                fail(f'{what}: the existing target was accepted and overwritten - the caller did not disable the existence check')
+            o2, e2, _ = call(w.close)
+            if o2 != 'ok':
+                fail(f'{what}: close raised {e2}')
+            if tracker.any_open():
+                fail(f'{what}: the file the writer opened itself is still open after close')
+            if os.path.isfile(path):
+                with _real_open(path, 'rb') as f:
+                    now = f.read()
+                if len(now) != len(ref['full']):
+                    fail(f"{what}: after close the file has {len(now)} bytes, the full declared size is {len(ref['full'])}")
+            else:
+                fail(f'{what}: no file at the path after close')
+            trace = [f"opened{int(pre in 'ef')}:{int(keep)}"]
+        for h in tracker.handles:
+            try:
+                h.close()
+            except Exception:
+                pass
+    w = None
+    gc.collect()
+    return trace, fails, {'exc': ({ecls: 1} if ecls else {}), 'must_refuse': must_refuse}
+
+
+def compare_exist(model_line, gen_line, trace):
+    out = []
+    if model_line != trace[0]:
+        out.append(f'existence check: model {model_line} implementation {trace[0]}')
+    if gen_line is not None:
+        if ' | ' not in gen_line:
+            out.append(f'the driver of the regenerated kernels answered {gen_line[:60]}')
+        else:
+            gen, spec = gen_line.split(' | ')
+            impl = '1' if trace[0].startswith('refused') else '0'
+            if not (gen == spec == impl):
+                out.append(f'existence test: implementation refuses={impl}, regenerated Lean {gen}, reference definition {spec}')
     return out
